@@ -1,7 +1,1134 @@
-//! C38: not implemented yet.
+//! C38: concurrent commits log page images in commit order; every page a committed transaction modified is in the
+//! log before COMMIT returns.
+//!
+//! Rounds run in worker subprocesses (`tv C38 worker ...`) under the supervisor of c08.rs: 2-6 threads on cloned
+//! handles, `PRAGMA wal = ON`, every thread commits transactions / autocommit statements that insert uniquely stamped
+//! rows into the same two tables (small rows, an indexed text column, a TOASTed column), with the yield hook
+//! stretching the window between page-image capture and queue submission (and between log write and storage sync).
+//! When the threads are done the database directory is copied while all handles are still open (no Drop, no
+//! checkpoint: the process-kill image) and the handles are leaked. A fresh judge subprocess (`tv C38 judge ...`)
+//! reads the WAL segments of the copy with the public reader, then opens the copy (recovery) and looks for every
+//! row whose COMMIT returned Ok.
+use super::c08::{cleanup_worker_scratch, supervise, Outcome};
+use crate::report::{catch, Ctx};
+use crate::rng::{fnv, Rng};
+use crate::sqlm::db::Scratch;
 use crate::Args;
+use serde_json::{json, Value as J};
+use std::collections::{BTreeMap, BTreeSet, HashMap, HashSet};
+use std::io::{Read, Seek, SeekFrom, Write};
+use std::path::{Path, PathBuf};
+use std::sync::atomic::{AtomicBool, AtomicU64, Ordering};
+use std::sync::{Arc, Mutex};
+use std::time::{Duration, Instant};
+use turdb::{Database, ExecuteResult, OwnedValue};
 
-pub fn run(_a: &Args) -> i32 {
-    println!("INCONCLUSIVE property=C38 reason=check not implemented yet");
-    2
+const PAGE: usize = 16384;
+const FRAME_HDR: usize = 32;
+const TABLES: [&str; 2] = ["t", "u"];
+
+fn exec(db: &Database, sql: &str) -> Result<ExecuteResult, String> {
+    match catch(|| db.execute(sql)) {
+        Ok(Ok(r)) => Ok(r),
+        Ok(Err(e)) => Err(format!("{:#}", e)),
+        Err(p) => Err(format!("PANIC: {}", p)),
+    }
+}
+
+// ------------------------------------------------------------------------------------------------ stamps
+
+/// all `<open>stamp<close>` occurrences in a byte string (stamps are [A-Za-z0-9:]+)
+fn find_marked(data: &[u8], open: &[u8; 2], close: &[u8; 2], out: &mut HashSet<String>) {
+    let mut i = 0;
+    while i + 4 <= data.len() {
+        if data[i] == open[0] && data[i + 1] == open[1] {
+            let mut j = i + 2;
+            while j < data.len() && j - i < 40 && (data[j].is_ascii_alphanumeric() || data[j] == b':') {
+                j += 1;
+            }
+            if j + 1 < data.len() && j > i + 2 && data[j] == close[0] && data[j + 1] == close[1] {
+                out.insert(String::from_utf8_lossy(&data[i + 2..j]).to_string());
+                i = j + 2;
+                continue;
+            }
+        }
+        i += 1;
+    }
+}
+
+#[derive(Default, Clone)]
+struct Marks {
+    /// number of leaf cells (or raw occurrences) carrying `[[x]]`
+    big_n: HashMap<String, u32>,
+    /// `<<x>>` row stamp (column s of the table row)
+    row: HashSet<String>,
+    /// `[[x]]` body of the big column
+    big: HashSet<String>,
+    /// `((x))` indexed column k
+    key: HashSet<String>,
+}
+
+fn marks_raw(data: &[u8]) -> Marks {
+    let mut m = Marks::default();
+    find_marked(data, b"<<", b">>", &mut m.row);
+    find_marked(data, b"[[", b"]]", &mut m.big);
+    for x in &m.big {
+        m.big_n.insert(x.clone(), 1);
+    }
+    find_marked(data, b"((", b"))", &mut m.key);
+    m
+}
+
+/// marks inside the live cells of a page if it decodes as a B-tree leaf, else raw scan of the page
+fn marks_of_page(data: &[u8]) -> (Marks, bool) {
+    let leaf = catch(|| -> Option<Marks> {
+        let leaf = turdb::btree::LeafNode::from_page(data).ok()?;
+        let n = leaf.cell_count() as usize;
+        let mut m = Marks::default();
+        for i in 0..n {
+            let k = leaf.key_at(i).ok()?;
+            let v = leaf.value_at(i).ok()?;
+            for part in [k, v] {
+                find_marked(part, b"<<", b">>", &mut m.row);
+                let mut cell_big = HashSet::new();
+                find_marked(part, b"[[", b"]]", &mut cell_big);
+                for x in cell_big {
+                    *m.big_n.entry(x.clone()).or_insert(0) += 1;
+                    m.big.insert(x);
+                }
+                find_marked(part, b"((", b"))", &mut m.key);
+            }
+        }
+        Some(m)
+    });
+    match leaf {
+        Ok(Some(m)) => (m, true),
+        _ => (marks_raw(data), false),
+    }
+}
+
+fn big_body(stamp: &str, len: usize) -> String {
+    let unit = format!("[[{}]]", stamp);
+    let mut s = String::with_capacity(len + unit.len());
+    while s.len() < len {
+        s.push_str(&unit);
+    }
+    s
+}
+
+// ------------------------------------------------------------------------------------------------ worker
+
+#[derive(Clone, Debug)]
+struct RowPlan {
+    tab: usize,
+    id: i64,
+    stamp: String,
+    big_len: usize,
+}
+
+#[derive(Clone, Debug)]
+struct TxnPlan {
+    explicit: bool,
+    rows: Vec<RowPlan>,
+}
+
+struct RoundPlan {
+    threads: usize,
+    mode: &'static str,
+    fat: bool,
+    plans: Vec<Vec<TxnPlan>>,
+    preload: Vec<RowPlan>,
+}
+
+fn plan_round(seed: u64, nofat: bool) -> RoundPlan {
+    let mut rng = Rng::derive(seed, 38);
+    let fat = rng.chance(1, 6) && !nofat;
+    let threads = if fat { rng.usize(2, 3) } else { rng.usize(2, 6) };
+    let mode = if fat {
+        "fat_hold_after_log"
+    } else {
+        match rng.below(10) {
+            0..=5 => "hold_after_capture",
+            6..=8 => "random_yield",
+            _ => "no_hook",
+        }
+    };
+    let mut plans = vec![];
+    for tid in 0..threads {
+        let ntx = if fat { rng.usize(2, 4) } else { rng.usize(3, 9) };
+        let mut v = vec![];
+        let mut next_id = (tid as i64 + 1) * 100_000;
+        for x in 0..ntx {
+            let explicit = fat || rng.chance(3, 4);
+            let nrows = if explicit { if fat { rng.usize(2, 4) } else { rng.usize(1, 4) } } else { 1 };
+            let mut rows = vec![];
+            for r in 0..nrows {
+                let tab = if rng.chance(1, 4) { 1 } else { 0 };
+                let big_len = if fat {
+                    rng.usize(20_000, 60_000)
+                } else {
+                    match rng.below(6) {
+                        0 => rng.usize(1_500, 3_000),
+                        1 => rng.usize(4_100, 9_000),
+                        _ => rng.usize(0, 40),
+                    }
+                };
+                rows.push(RowPlan { tab, id: next_id, stamp: format!("T{}:X{}:R{}", tid, x, r), big_len });
+                next_id += 1;
+            }
+            v.push(TxnPlan { explicit, rows });
+        }
+        plans.push(v);
+    }
+    let npre = rng.usize(0, 30);
+    let preload = (0..npre).map(|i| RowPlan { tab: i % 2, id: 1 + i as i64, stamp: format!("P:X0:R{}", i), big_len: if i % 7 == 0 { 1600 } else { 10 } }).collect();
+    RoundPlan { threads, mode, fat, plans, preload }
+}
+
+fn insert_sql(r: &RowPlan) -> String {
+    format!("INSERT INTO {} VALUES ({}, '<<{}>>', '(({}))', '{}')", TABLES[r.tab], r.id, r.stamp, r.stamp, big_body(&r.stamp, r.big_len))
+}
+
+/// incremental reader of the WAL files on disk: which marks have reached the log so far
+#[derive(Default)]
+struct WalTail {
+    offsets: HashMap<PathBuf, u64>,
+    /// stamp -> logged as part of a table row
+    row: HashSet<String>,
+    /// `[[x]]` seen in a frame that does not carry the row `<<x>>` (a TOAST page)
+    toast: HashSet<String>,
+    /// `((x))` seen in a frame that does not carry the row `<<x>>` (an index page)
+    index: HashSet<String>,
+    frames: u64,
+}
+
+impl WalTail {
+    fn scan(&mut self, wal_dir: &Path) {
+        let mut files: Vec<PathBuf> = std::fs::read_dir(wal_dir).map(|rd| rd.flatten().map(|e| e.path()).collect()).unwrap_or_default();
+        files.sort();
+        for f in files {
+            let Ok(mut file) = std::fs::File::open(&f) else { continue };
+            let len = file.metadata().map(|m| m.len()).unwrap_or(0);
+            let off = *self.offsets.get(&f).unwrap_or(&0);
+            let fsz = (FRAME_HDR + PAGE) as u64;
+            let mut pos = off;
+            if file.seek(SeekFrom::Start(pos)).is_err() {
+                continue;
+            }
+            let mut buf = vec![0u8; FRAME_HDR + PAGE];
+            while pos + fsz <= len {
+                if file.read_exact(&mut buf).is_err() {
+                    break;
+                }
+                let m = marks_raw(&buf[FRAME_HDR..]);
+                for x in &m.big {
+                    if !m.row.contains(x) {
+                        self.toast.insert(x.clone());
+                    }
+                }
+                for x in &m.key {
+                    if !m.row.contains(x) {
+                        self.index.insert(x.clone());
+                    }
+                }
+                self.row.extend(m.row);
+                self.frames += 1;
+                pos += fsz;
+            }
+            self.offsets.insert(f, pos);
+        }
+    }
+}
+
+fn copy_dir(src: &Path, dst: &Path) -> std::io::Result<()> {
+    std::fs::create_dir_all(dst)?;
+    for e in std::fs::read_dir(src)? {
+        let e = e?;
+        let p = e.path();
+        let d = dst.join(e.file_name());
+        if p.is_dir() {
+            copy_dir(&p, &d)?;
+        } else {
+            std::fs::copy(&p, &d)?;
+        }
+    }
+    Ok(())
+}
+
+thread_local! {
+    static TID: std::cell::Cell<usize> = std::cell::Cell::new(99);
+    static HRNG: std::cell::RefCell<Option<Rng>> = std::cell::RefCell::new(None);
+    static CAPTURES: std::cell::Cell<u64> = std::cell::Cell::new(0);
+    static OVERTAKEN: std::cell::Cell<bool> = std::cell::Cell::new(false);
+}
+
+/// state shared by the committer threads of one round
+struct Shared {
+    /// held for reading around every statement; a crash image is copied under the write lock, i.e. at an
+    /// instant at which no statement is in flight (a real kill between statements)
+    gate: std::sync::RwLock<()>,
+    committed: Mutex<Vec<J>>,
+    /// thread is inside COMMIT / an autocommit INSERT
+    inflight: Vec<AtomicBool>,
+    in_window: Vec<AtomicBool>,
+    overlap: AtomicU64,
+    commits_done: AtomicU64,
+    overtaken: AtomicU64,
+    hook_log: Mutex<Vec<(usize, &'static str)>>,
+    tail: Mutex<WalTail>,
+    snaps: Mutex<Vec<J>>,
+    mid_snaps: AtomicU64,
+}
+
+/// copy the live directory (caller guarantees no statement is in flight) + manifest of rows committed so far
+fn snapshot(sh: &Shared, live: &Path, root: &Path, idx: u64, tag: &str) -> Result<(), String> {
+    let k = sh.snaps.lock().unwrap().len();
+    let copy = root.join(format!("crash{}_{}", idx, k));
+    let _ = std::fs::remove_dir_all(&copy);
+    copy_dir(live, &copy).map_err(|e| format!("copy: {}", e))?;
+    let manifest = root.join(format!("manifest{}_{}.json", idx, k));
+    let committed = sh.committed.lock().unwrap().clone();
+    let n = committed.len();
+    std::fs::write(&manifest, serde_json::to_string(&json!({"committed": committed})).unwrap()).map_err(|e| e.to_string())?;
+    sh.snaps.lock().unwrap().push(json!({"dir": copy, "manifest": manifest, "at": tag, "committed_rows": n}));
+    Ok(())
+}
+
+fn run_round(idx: u64, seed: u64, nofat: bool, scratch: &Scratch) -> Result<J, String> {
+    let plan = plan_round(seed, nofat);
+    let dir = scratch.dir(&format!("live{}", idx));
+    let db = match catch(|| Database::create(&dir)) {
+        Ok(Ok(d)) => d,
+        Ok(Err(e)) => return Err(format!("create: {:#}", e)),
+        Err(p) => return Err(format!("create panicked: {}", p)),
+    };
+    exec(&db, "PRAGMA wal = ON").map_err(|e| format!("PRAGMA wal = ON: {}", e))?;
+    for t in TABLES {
+        exec(&db, &format!("CREATE TABLE {} (id INT PRIMARY KEY, s TEXT, k TEXT, big TEXT)", t))?;
+        exec(&db, &format!("CREATE INDEX {}_k ON {} (k)", t, t))?;
+    }
+    let n = plan.threads;
+    let sh = Arc::new(Shared {
+        gate: std::sync::RwLock::new(()),
+        committed: Mutex::new(vec![]),
+        inflight: (0..8).map(|_| AtomicBool::new(false)).collect(),
+        in_window: (0..8).map(|_| AtomicBool::new(false)).collect(),
+        overlap: AtomicU64::new(0),
+        commits_done: AtomicU64::new(0),
+        overtaken: AtomicU64::new(0),
+        hook_log: Mutex::new(vec![]),
+        tail: Mutex::new(WalTail::default()),
+        snaps: Mutex::new(vec![]),
+        mid_snaps: AtomicU64::new(0),
+    });
+    for r in &plan.preload {
+        exec(&db, &insert_sql(r))?;
+        sh.committed.lock().unwrap().push(json!({"tab": r.tab, "id": r.id, "stamp": r.stamp, "big_len": r.big_len, "thread": -1}));
+    }
+    if plan.mode != "no_hook" {
+        let sh = sh.clone();
+        let mode = plan.mode;
+        turdb::verif::set_yield_hook(Some(Arc::new(move |name: &'static str| {
+            let tid = TID.with(|t| t.get());
+            if tid == 99 {
+                return;
+            }
+            sh.hook_log.lock().unwrap().push((tid, name));
+            if name == "commit.after_capture" {
+                CAPTURES.with(|c| c.set(c.get() + 1));
+                sh.in_window[tid].store(true, Ordering::SeqCst);
+                if sh.in_window.iter().enumerate().any(|(i, w)| i != tid && w.load(Ordering::SeqCst)) {
+                    sh.overlap.fetch_add(1, Ordering::SeqCst);
+                }
+            }
+            HRNG.with(|r| {
+                let mut g = r.borrow_mut();
+                let Some(rng) = g.as_mut() else { return };
+                match (mode, name) {
+                    ("hold_after_capture", "commit.after_capture") => {
+                        if rng.chance(2, 3) {
+                            // let somebody else complete a whole commit that starts after this capture
+                            let c0 = sh.commits_done.load(Ordering::SeqCst);
+                            let need = 1 + rng.below(2);
+                            let t0 = Instant::now();
+                            let limit = Duration::from_millis(2 + rng.below(40));
+                            while t0.elapsed() < limit {
+                                if sh.commits_done.load(Ordering::SeqCst) >= c0 + need {
+                                    sh.overtaken.fetch_add(1, Ordering::SeqCst);
+                                    OVERTAKEN.with(|o| o.set(true));
+                                    break;
+                                }
+                                std::thread::sleep(Duration::from_micros(100));
+                            }
+                        }
+                    }
+                    ("fat_hold_after_log", "commit.after_log") => {
+                        // this committer still owns the page buffers of the batch it wrote: wait for another
+                        // thread to enter COMMIT, then a little longer
+                        let t0 = Instant::now();
+                        while t0.elapsed() < Duration::from_millis(150) {
+                            if sh.inflight.iter().enumerate().any(|(i, f)| i != tid && f.load(Ordering::SeqCst)) {
+                                break;
+                            }
+                            std::thread::sleep(Duration::from_micros(200));
+                        }
+                        std::thread::sleep(Duration::from_millis(5 + rng.below(30)));
+                    }
+                    ("hold_after_capture", _) | ("fat_hold_after_log", _) | ("random_yield", _) => match rng.below(6) {
+                        0 | 1 => {}
+                        2 => std::thread::yield_now(),
+                        3 | 4 => std::thread::sleep(Duration::from_micros(1 + rng.below(300))),
+                        _ => std::thread::sleep(Duration::from_micros(300 + rng.below(3000))),
+                    },
+                    _ => {}
+                }
+            });
+        })));
+    }
+    let wal_dir = dir.join("wal");
+    let barrier = Arc::new(std::sync::Barrier::new(n));
+    let mut joins = vec![];
+    for tid in 0..n {
+        let h = db.clone();
+        let txns = plan.plans[tid].clone();
+        let barrier = barrier.clone();
+        let sh = sh.clone();
+        let wal_dir = wal_dir.clone();
+        let live = dir.clone();
+        let root = scratch.root.clone();
+        let tseed = seed.wrapping_mul(131).wrapping_add(tid as u64);
+        joins.push(std::thread::spawn(move || {
+            TID.with(|t| t.set(tid));
+            HRNG.with(|r| *r.borrow_mut() = Some(Rng::derive(tseed, 3838)));
+            let mut lrng = Rng::derive(tseed, 3839);
+            let mut failed: Vec<J> = vec![];
+            let mut cover: Vec<J> = vec![];
+            let mut commits = 0u64;
+            let gexec = |sql: &str, committing: bool| -> Result<ExecuteResult, String> {
+                let _g = sh.gate.read().unwrap();
+                if committing {
+                    sh.inflight[tid].store(true, Ordering::SeqCst);
+                }
+                let r = exec(&h, sql);
+                r
+            };
+            barrier.wait();
+            for (x, t) in txns.iter().enumerate() {
+                let cap0 = CAPTURES.with(|c| c.get());
+                OVERTAKEN.with(|o| o.set(false));
+                let mut err: Option<String> = None;
+                if t.explicit {
+                    if let Err(e) = gexec("BEGIN", false) {
+                        err = Some(format!("BEGIN: {}", e));
+                    }
+                }
+                if err.is_none() {
+                    for r in &t.rows {
+                        if let Err(e) = gexec(&insert_sql(r), !t.explicit) {
+                            err = Some(format!("INSERT: {}", e.chars().take(200).collect::<String>()));
+                            break;
+                        }
+                    }
+                }
+                if t.explicit {
+                    if err.is_none() {
+                        if let Err(e) = gexec("COMMIT", true) {
+                            err = Some(format!("COMMIT: {}", e));
+                            let _ = gexec("ROLLBACK", false);
+                        }
+                    } else {
+                        let _ = gexec("ROLLBACK", false);
+                    }
+                }
+                // who else is inside a commit right now (they may own page images that are not written yet)
+                let others_inflight = sh.inflight.iter().enumerate().any(|(i, f)| i != tid && f.load(Ordering::SeqCst));
+                sh.inflight[tid].store(false, Ordering::SeqCst);
+                sh.in_window[tid].store(false, Ordering::SeqCst);
+                sh.commits_done.fetch_add(1, Ordering::SeqCst);
+                commits += 1;
+                let captured = CAPTURES.with(|c| c.get()) > cap0;
+                match err {
+                    None => {
+                        // the commit returned Ok: its pages must be in the log file now
+                        {
+                            let mut tl = sh.tail.lock().unwrap();
+                            tl.scan(&wal_dir);
+                            for r in &t.rows {
+                                let mut missing = vec![];
+                                if !tl.row.contains(&r.stamp) {
+                                    missing.push("table");
+                                }
+                                if r.big_len >= 1200 && !tl.toast.contains(&r.stamp) {
+                                    missing.push("toast");
+                                }
+                                if !tl.index.contains(&r.stamp) {
+                                    missing.push("index");
+                                }
+                                for m in missing {
+                                    cover.push(json!({"kind": m, "stamp": r.stamp, "explicit": t.explicit, "this_commit_captured_pages": captured, "another_commit_in_flight": others_inflight, "txn": x}));
+                                }
+                            }
+                        }
+                        let mut c = sh.committed.lock().unwrap();
+                        for r in &t.rows {
+                            c.push(json!({"tab": r.tab, "id": r.id, "stamp": r.stamp, "big_len": r.big_len, "thread": tid}));
+                        }
+                    }
+                    Some(e) => failed.push(json!({"thread": tid, "txn": x, "error": e, "stamps": t.rows.iter().map(|r| r.stamp.clone()).collect::<Vec<_>>()})),
+                }
+                // a committer that was overtaken between capture and submission has just written an older
+                // image after a newer one: crash now (between statements)
+                if OVERTAKEN.with(|o| o.get()) && sh.mid_snaps.fetch_add(1, Ordering::SeqCst) < 2 {
+                    let _w = sh.gate.write().unwrap();
+                    let _ = snapshot(&sh, &live, &root, idx, "after_overtaken_commit");
+                }
+                if lrng.chance(1, 3) {
+                    std::thread::sleep(Duration::from_micros(lrng.below(400)));
+                }
+            }
+            (failed, cover, commits)
+        }));
+    }
+    let mut failed: Vec<J> = vec![];
+    let mut cover: Vec<J> = vec![];
+    let mut commits = 0;
+    for j in joins {
+        match j.join() {
+            Ok((f, c, k)) => {
+                failed.extend(f);
+                cover.extend(c);
+                commits += k;
+            }
+            Err(_) => {
+                turdb::verif::set_yield_hook(None);
+                return Err("committer thread panicked outside a statement".into());
+            }
+        }
+    }
+    turdb::verif::set_yield_hook(None);
+    // crash: copy the directory as it is while every handle is still open, then leak the handle
+    snapshot(&sh, &dir, &scratch.root, idx, "end_of_round")?;
+    std::mem::forget(db);
+    let _ = std::fs::remove_dir_all(&dir);
+    let hl = sh.hook_log.lock().unwrap().clone();
+    let fp = fnv(format!("{}|{:?}", n, hl).as_bytes());
+    let frames = sh.tail.lock().unwrap().frames;
+    let committed_rows = sh.committed.lock().unwrap().len();
+    let snaps = sh.snaps.lock().unwrap().clone();
+    Ok(json!({
+        "case": idx, "threads": n, "mode": plan.mode, "fat": plan.fat, "snapshots": snaps, "commits": commits, "committed_rows": committed_rows,
+        "failed": failed, "coverage": cover, "fp": fp, "hook_events": hl.len(), "commit_window_overlaps": sh.overlap.load(Ordering::SeqCst), "held_and_overtaken": sh.overtaken.load(Ordering::SeqCst),
+        "frames_seen_by_tail": frames, "seed": seed,
+    }))
+}
+
+fn emit(v: J) {
+    let out = std::io::stdout();
+    let mut l = out.lock();
+    let _ = writeln!(l, "{}", v);
+    let _ = l.flush();
+}
+
+fn round_seed(seed: u64, idx: u64) -> u64 {
+    seed.wrapping_mul(0x9E37_79B9).wrapping_add(idx.wrapping_mul(7919)).wrapping_add(38)
+}
+
+/// `tv C38 --tier T --seed S worker <start> <budget s> <fat|nofat> [only]`
+fn worker_main(a: &Args) -> i32 {
+    let start: u64 = a.rest.get(1).and_then(|s| s.parse().ok()).unwrap_or(0);
+    let budget: f64 = a.rest.get(2).and_then(|s| s.parse().ok()).unwrap_or(10.0);
+    let nofat = a.rest.get(3).map(|s| s == "nofat").unwrap_or(false);
+    let only = a.rest.get(4).map(|s| s == "only").unwrap_or(false);
+    let t0 = Instant::now();
+    // the directory must outlive this process: the supervisor judges the copies and removes them
+    let scratch = Scratch::new("c38w");
+    let mut idx = start;
+    loop {
+        if t0.elapsed().as_secs_f64() > budget && !only {
+            break;
+        }
+        emit(json!({"start": idx}));
+        match run_round(idx, round_seed(a.seed, idx), nofat, &scratch) {
+            Ok(v) => emit(v),
+            Err(e) => emit(json!({"case": idx, "setup_error": e})),
+        }
+        idx += 1;
+        if only {
+            break;
+        }
+    }
+    emit(json!({"done": true, "next": idx}));
+    // no destructors: the leaked handles must not checkpoint, the copies stay for the judge
+    std::mem::forget(scratch);
+    0
+}
+
+// ------------------------------------------------------------------------------------------------ judge
+
+/// `tv C38 judge <dir> <manifest>`: frame-level check of the copied WAL, then recovery + row lookups
+fn judge_main(a: &Args) -> i32 {
+    let dir = PathBuf::from(&a.rest[1]);
+    let manifest: J = std::fs::read_to_string(&a.rest[2]).ok().and_then(|s| serde_json::from_str(&s).ok()).unwrap_or(J::Null);
+    let committed: Vec<J> = manifest["committed"].as_array().cloned().unwrap_or_default();
+    let committed_stamps: HashSet<String> = committed.iter().filter_map(|r| r["stamp"].as_str().map(|s| s.to_string())).collect();
+    let mut out = serde_json::Map::new();
+
+    // 1. table ids of the .tbd files (frames carry the table id as file id)
+    let mut file_of: HashMap<u64, PathBuf> = HashMap::new();
+    let root = dir.join("root");
+    if let Ok(rd) = std::fs::read_dir(&root) {
+        for e in rd.flatten() {
+            let p = e.path();
+            if p.extension().map(|x| x == "tbd").unwrap_or(false) {
+                let mut hdr = vec![0u8; 128];
+                if std::fs::File::open(&p).and_then(|mut f| f.read_exact(&mut hdr)).is_ok() {
+                    if let Ok(Ok(h)) = catch(|| turdb::storage::TableFileHeader::from_bytes(&hdr).map(|h| h.table_id())) {
+                        file_of.insert(h, p.clone());
+                    }
+                }
+            }
+        }
+    }
+    let kind_of = |p: &Path| -> &'static str {
+        let n = p.file_name().map(|n| n.to_string_lossy().to_string()).unwrap_or_default();
+        if n.contains("toast") {
+            "toast"
+        } else {
+            "table"
+        }
+    };
+    // 2. frames, in log order
+    struct Fr {
+        marks: Marks,
+        leaf: bool,
+        hash: u64,
+    }
+    let mut per_page: BTreeMap<(u64, u32), Vec<Fr>> = BTreeMap::new();
+    let mut nframes = 0u64;
+    let mut unattributed = 0u64;
+    let mut index_like_frames = 0u64;
+    let mut wal_files: Vec<PathBuf> = std::fs::read_dir(dir.join("wal")).map(|rd| rd.flatten().map(|e| e.path()).collect()).unwrap_or_default();
+    wal_files.sort();
+    for (i, wf) in wal_files.iter().enumerate() {
+        let seg = catch(|| turdb::storage::WalSegment::open(wf, i as u64 + 1));
+        let Ok(Ok(mut seg)) = seg else { continue };
+        loop {
+            match catch(|| seg.read_frame()) {
+                Ok(Ok((h, data))) => {
+                    nframes += 1;
+                    if !h.is_redo_frame() {
+                        continue;
+                    }
+                    let fid = h.actual_file_id();
+                    if !file_of.contains_key(&fid) {
+                        unattributed += 1;
+                    }
+                    let (marks, leaf) = marks_of_page(&data);
+                    if marks.key.iter().any(|k| !marks.row.contains(k)) {
+                        index_like_frames += 1;
+                    }
+                    per_page.entry((fid, h.page_no)).or_default().push(Fr { marks, leaf, hash: fnv(&data) });
+                }
+                _ => break,
+            }
+        }
+    }
+    out.insert("frames".into(), json!(nframes));
+    out.insert("pages_in_wal".into(), json!(per_page.len()));
+    out.insert("frames_for_unknown_files".into(), json!(unattributed));
+    out.insert("index_like_frames".into(), json!(index_like_frames));
+    // 3. last frame against the live page of the copy (every transaction has committed, nothing is in flight:
+    //    the live page IS the most recent committed version)
+    let mut regress: Vec<J> = vec![];
+    let mut differs = 0u64;
+    let mut pages_multi = 0u64;
+    for ((fid, page_no), frames) in &per_page {
+        let Some(path) = file_of.get(fid) else { continue };
+        if frames.len() > 1 {
+            pages_multi += 1;
+        }
+        let mut live = vec![0u8; PAGE];
+        let ok = std::fs::File::open(path).and_then(|mut f| {
+            f.seek(SeekFrom::Start(*page_no as u64 * PAGE as u64))?;
+            f.read_exact(&mut live)
+        });
+        if ok.is_err() {
+            continue;
+        }
+        let last = frames.last().unwrap();
+        if fnv(&live) == last.hash {
+            continue;
+        }
+        differs += 1;
+        let (lm, _) = marks_of_page(&live);
+        let kind = kind_of(path);
+        // per stamp: number of cells carrying it (a TOAST value spans several chunks = several cells)
+        let pick = |m: &Marks| -> HashMap<String, u32> { if kind == "toast" { m.big_n.clone() } else { m.row.iter().map(|s| (s.clone(), 1)).collect() } };
+        let live_set = pick(&lm);
+        let last_set = pick(&last.marks);
+        // committed stamps the live page has and the page image that recovery will install has not
+        let lost: Vec<String> = live_set.iter().filter(|(s, n)| committed_stamps.contains(*s) && last_set.get(*s).copied().unwrap_or(0) < **n).map(|(s, _)| s.clone()).collect();
+        if lost.is_empty() {
+            continue;
+        }
+        let mut in_earlier = 0;
+        let mut newest_earlier: Option<usize> = None;
+        for s in &lost {
+            let need = live_set[s];
+            if let Some(pos) = frames[..frames.len() - 1].iter().rposition(|f| pick(&f.marks).get(s).copied().unwrap_or(0) >= need) {
+                in_earlier += 1;
+                newest_earlier = Some(newest_earlier.map(|p| p.max(pos)).unwrap_or(pos));
+            }
+        }
+        regress.push(json!({"kind": kind, "file": path.file_name().map(|n| n.to_string_lossy().to_string()), "page": page_no, "frames_of_page": frames.len(), "lost_committed_stamps": lost.len(), "lost_present_in_an_earlier_frame": in_earlier,
+            "earlier_newer_frame_index": newest_earlier, "example": lost.iter().take(3).collect::<Vec<_>>(), "leaf": last.leaf}));
+    }
+    out.insert("pages_whose_last_frame_differs_from_live".into(), json!(differs));
+    out.insert("pages_with_several_frames".into(), json!(pages_multi));
+    out.insert("regressions".into(), json!(regress));
+    // 4. the files as they are, WITHOUT the log (what the tables hold before replay): rows that are unreachable here
+    //    were lost by the concurrent statements themselves, not by the log
+    let nowal = PathBuf::from(format!("{}.nowal", dir.display()));
+    let _ = std::fs::remove_dir_all(&nowal);
+    let mut before: Option<Lookup> = None;
+    if copy_dir(&dir, &nowal).is_ok() {
+        let _ = std::fs::remove_dir_all(nowal.join("wal"));
+        before = Some(lookup_all(&nowal, &committed));
+        let _ = std::fs::remove_dir_all(&nowal);
+    }
+    // 5. open the copy (recovery) and look for every committed row
+    let after = lookup_all(&dir, &committed);
+    if let Some(e) = &after.open_error {
+        out.insert("open_error".into(), json!(e));
+    }
+    let empty = Lookup::default();
+    let b = before.as_ref().unwrap_or(&empty);
+    let mut lost_by_replay: BTreeMap<&'static str, Vec<String>> = BTreeMap::new();
+    let mut missing_before: BTreeMap<&'static str, Vec<String>> = BTreeMap::new();
+    for (path, xs) in &after.missing {
+        for x in xs {
+            if b.open_error.is_none() && before.is_some() && !b.missing.get(path).map(|v| v.contains(x)).unwrap_or(false) {
+                lost_by_replay.entry(path).or_default().push(x.clone());
+            }
+        }
+    }
+    for (path, xs) in &b.missing {
+        missing_before.entry(path).or_default().extend(xs.iter().cloned());
+    }
+    out.insert("missing".into(), json!(lost_by_replay));
+    out.insert("missing_before_replay".into(), json!(missing_before));
+    out.insert("before_replay_open_error".into(), json!(b.open_error));
+    out.insert("query_errors".into(), json!(after.errors));
+    out.insert("query_errors_before_replay".into(), json!(b.errors));
+    out.insert("plans".into(), json!(after.plans));
+    println!("{}", J::Object(out));
+    0
+}
+
+#[derive(Default)]
+struct Lookup {
+    open_error: Option<String>,
+    missing: BTreeMap<&'static str, Vec<String>>,
+    errors: BTreeMap<String, u64>,
+    plans: BTreeMap<String, String>,
+}
+
+/// open `dir` and look for every committed row by full scan, PK lookup, secondary index lookup; big values by PK
+fn lookup_all(dir: &Path, committed: &[J]) -> Lookup {
+    let mut l = Lookup::default();
+    let db = match catch(|| Database::open(dir)) {
+        Ok(Ok(d)) => d,
+        Ok(Err(e)) => {
+            l.open_error = Some(format!("{:#}", e));
+            return l;
+        }
+        Err(p) => {
+            l.open_error = Some(format!("PANIC: {}", p));
+            return l;
+        }
+    };
+    let text = |v: &OwnedValue| -> Option<String> {
+        match v {
+            OwnedValue::Text(s) => Some(s.clone()),
+            _ => None,
+        }
+    };
+    let cls = |e: &str| -> String { e.split(|c: char| !c.is_ascii_alphabetic()).filter(|w| !w.is_empty()).take(6).collect::<Vec<_>>().join("_").to_lowercase() };
+    for (ti, t) in TABLES.iter().enumerate() {
+        let rows_of_tab: Vec<&J> = committed.iter().filter(|r| r["tab"].as_u64() == Some(ti as u64)).collect();
+        // full scan (without the big column: one unreadable TOAST value must not hide every other row)
+        let mut scan: HashMap<i64, String> = HashMap::new();
+        match exec(&db, &format!("SELECT id, s, k FROM {}", t)) {
+            Ok(ExecuteResult::Select { rows, .. }) => {
+                for r in rows {
+                    if let Some(OwnedValue::Int(id)) = r.values.first() {
+                        scan.insert(*id, r.values.get(1).and_then(text).unwrap_or_default());
+                    }
+                }
+            }
+            Ok(_) => {}
+            Err(e) => {
+                *l.errors.entry(format!("scan {}: {}", t, cls(&e))).or_insert(0) += 1;
+            }
+        }
+        for (q, name) in [(format!("SELECT id FROM {} WHERE id = 1", t), "pk"), (format!("SELECT id FROM {} WHERE k = '((x))'", t), "index")] {
+            if let Ok(ExecuteResult::Explain { plan }) = exec(&db, &format!("EXPLAIN {}", q)) {
+                l.plans.insert(format!("{}:{}", t, name), plan.chars().take(300).collect());
+            }
+        }
+        for r in rows_of_tab {
+            let id = r["id"].as_i64().unwrap_or(0);
+            let stamp = r["stamp"].as_str().unwrap_or("").to_string();
+            let big_len = r["big_len"].as_u64().unwrap_or(0) as usize;
+            let want_s = format!("<<{}>>", stamp);
+            if scan.get(&id) != Some(&want_s) {
+                l.missing.entry("scan").or_default().push(stamp.clone());
+            }
+            let mut pk_found = false;
+            match exec(&db, &format!("SELECT id, s FROM {} WHERE id = {}", t, id)) {
+                Ok(ExecuteResult::Select { rows, .. }) => {
+                    pk_found = rows.iter().any(|r| r.values.get(1).and_then(text).as_deref() == Some(want_s.as_str()));
+                    if !pk_found {
+                        l.missing.entry("pk").or_default().push(stamp.clone());
+                    }
+                }
+                Ok(_) => {}
+                Err(e) => {
+                    *l.errors.entry(format!("pk {}: {}", t, cls(&e))).or_insert(0) += 1;
+                    l.missing.entry("pk").or_default().push(stamp.clone());
+                }
+            }
+            match exec(&db, &format!("SELECT id, s FROM {} WHERE k = '(({}))'", t, stamp)) {
+                Ok(ExecuteResult::Select { rows, .. }) => {
+                    if !rows.iter().any(|r| r.values.get(1).and_then(text).as_deref() == Some(want_s.as_str())) {
+                        l.missing.entry("index").or_default().push(stamp.clone());
+                    }
+                }
+                Ok(_) => {}
+                Err(e) => {
+                    *l.errors.entry(format!("index {}: {}", t, cls(&e))).or_insert(0) += 1;
+                    l.missing.entry("index").or_default().push(stamp.clone());
+                }
+            }
+            // the TOASTed value (only where the row itself is reachable: a missing row is reported once)
+            if big_len >= 1200 && pk_found {
+                match exec(&db, &format!("SELECT big FROM {} WHERE id = {}", t, id)) {
+                    Ok(ExecuteResult::Select { rows, .. }) => {
+                        if rows.first().and_then(|r| r.values.first()).and_then(text).as_deref() != Some(big_body(&stamp, big_len).as_str()) {
+                            l.missing.entry("toast").or_default().push(stamp.clone());
+                        }
+                    }
+                    Ok(_) => {}
+                    Err(e) => {
+                        *l.errors.entry(format!("toast {}: {}", t, cls(&e))).or_insert(0) += 1;
+                        l.missing.entry("toast").or_default().push(stamp.clone());
+                    }
+                }
+            }
+        }
+    }
+    // no Drop (no checkpoint of the image)
+    std::mem::forget(db);
+    l
+}
+
+fn judge(a: &Args, dir: &str, manifest: &str) -> J {
+    let exe = std::env::current_exe().unwrap();
+    let mut cmd = std::process::Command::new(exe);
+    cmd.arg("C38").arg("--tier").arg(&a.tier).arg("--seed").arg(a.seed.to_string()).arg("judge").arg(dir).arg(manifest);
+    cmd.env("RUST_BACKTRACE", "0");
+    let mut child = match cmd.stdout(std::process::Stdio::piped()).stderr(std::process::Stdio::null()).spawn() {
+        Ok(c) => c,
+        Err(e) => return json!({"harness_error": e.to_string()}),
+    };
+    let mut stdout = child.stdout.take().unwrap();
+    let (tx, rx) = std::sync::mpsc::channel();
+    std::thread::spawn(move || {
+        let mut s = String::new();
+        let _ = stdout.read_to_string(&mut s);
+        let _ = tx.send(s);
+    });
+    match rx.recv_timeout(Duration::from_secs(90)) {
+        Ok(s) => {
+            let st = child.wait();
+            match st {
+                Ok(st) if st.success() => serde_json::from_str(s.lines().last().unwrap_or("{}")).unwrap_or(json!({"harness_error": "bad judge output"})),
+                Ok(st) => json!({"abort": format!("{:?}", st)}),
+                Err(e) => json!({"harness_error": e.to_string()}),
+            }
+        }
+        Err(_) => {
+            let _ = child.kill();
+            let _ = child.wait();
+            json!({"hang": true})
+        }
+    }
+}
+
+// ------------------------------------------------------------------------------------------------ supervisor
+
+pub fn run(a: &Args) -> i32 {
+    match a.rest.first().map(|s| s.as_str()) {
+        Some("worker") => return worker_main(a),
+        Some("judge") => return judge_main(a),
+        Some("sqlopen") => {
+            // debugging aid: open an existing directory and run statements
+            let db = Database::open(&a.rest[1]).expect("open");
+            for q in &a.rest[2..] {
+                println!("> {}", q);
+                match exec(&db, q) {
+                    Ok(ExecuteResult::Select { rows, .. }) => {
+                        for r in rows {
+                            println!("  {}", format!("{:?}", r.values).chars().take(200).collect::<String>());
+                        }
+                    }
+                    Ok(o) => println!("  {}", format!("{:?}", o).chars().take(200).collect::<String>()),
+                    Err(e) => println!("  ERR {}", e),
+                }
+            }
+            std::mem::forget(db);
+            return 0;
+        }
+        _ => {}
+    }
+    let mut ctx = Ctx::new(
+        "C38",
+        &a.tier,
+        a.seed,
+        "exploration",
+        "rounds of 2-6 threads on cloned handles, PRAGMA wal=ON (synchronous FULL): each thread commits explicit transactions (1-4 inserts) and autocommit inserts of uniquely stamped rows into the same two tables (small rows sharing leaf pages, an indexed text column, a big column of 0-60 KB that is TOASTed above 1000 bytes); yield hook modes: hold a committer between page-image capture and queue submission until another thread completed a commit; hold between log write and storage sync with many-page transactions; random yields; none. At every COMMIT/autocommit return the log files on disk are read: commit_covered_by_log per page kind. Crash images (directory copied with all handles open and no statement in flight = process kill between statements) are taken right after a committer that was overtaken in the capture..submit window returns, and at the end of the round; a judge subprocess checks no_page_regression on each (per (file,page): committed stamps of the live page that the LAST frame of the page lacks; 'earlier frame newer' if an earlier frame has them) and, after opening the copy (recovery), every_committed_row_present by full scan, PK lookup, secondary index lookup and TOAST content. distinct_nontrivial = distinct yield-hook event orders of rounds in which >= 2 threads were inside the capture..return window at the same time",
+    );
+    let quick = ctx.quick();
+    // a round normally takes 1-3 s; (round limit, limit of the solitary re-run)
+    let (budget, stall, alone) = if quick { (50.0, 12u64, 20u64) } else { (540.0, 30u64, 60u64) };
+    let t0 = Instant::now();
+    let mut start_idx = 0u64;
+    let mut restarts = 0;
+    let mut nofat = false;
+    let mut fps: BTreeSet<u64> = BTreeSet::new();
+    let mut sig_examples: BTreeMap<String, J> = BTreeMap::new();
+    let mut plans_seen: BTreeMap<String, String> = BTreeMap::new();
+    loop {
+        let remaining = budget - t0.elapsed().as_secs_f64();
+        if remaining < 3.0 || restarts > 6 {
+            break;
+        }
+        // leave room for one watchdog expiry plus its solitary re-run at the end of the budget
+        let worker_budget = (remaining - if nofat { 3.0 } else { (stall + alone) as f64 * 0.5 }).max(2.0);
+        let args = vec![start_idx.to_string(), format!("{:.1}", worker_budget), if nofat { "nofat".to_string() } else { "fat".to_string() }];
+        let outcome = {
+            let ctx = &mut ctx;
+            let fps = &mut fps;
+            let sig_examples = &mut sig_examples;
+            let plans_seen = &mut plans_seen;
+            supervise("C38", &a.tier, a.seed, &args, Duration::from_secs(stall), &mut |v: &J| {
+                if v.get("case").is_none() {
+                    return;
+                }
+                if let Some(e) = v.get("setup_error").and_then(|e| e.as_str()) {
+                    ctx.violation("setup", "C38/setup_failed", json!({"error": e, "round": v["case"]}));
+                    return;
+                }
+                handle_round(ctx, a, v, nofat, fps, sig_examples, plans_seen);
+            })
+        };
+        match outcome {
+            Outcome::Finished => break,
+            Outcome::Stalled(idx) | Outcome::Died(_, idx) => {
+                let died = if let Outcome::Died(s, _) = &outcome { Some(s.clone()) } else { None };
+                restarts += 1;
+                let Some(idx) = idx else {
+                    ctx.inconclusive(&format!("worker failed before announcing a round: {:?}", died));
+                    break;
+                };
+                ctx.count("rounds_not_finished_in_time_or_worker_death", 1);
+                let plan = plan_round(round_seed(a.seed, idx), nofat);
+                let args = vec![idx.to_string(), "0".to_string(), if nofat { "nofat".to_string() } else { "fat".to_string() }, "only".to_string()];
+                let mut second: Option<J> = None;
+                let again = supervise("C38", &a.tier, a.seed, &args, Duration::from_secs(alone), &mut |v: &J| {
+                    if v.get("case").is_some() {
+                        second = Some(v.clone());
+                    }
+                });
+                match (&again, &died) {
+                    (Outcome::Stalled(_), _) => {
+                        ctx.violation(
+                            "progress",
+                            "C38/progress/committers_stuck",
+                            json!({"round": idx, "round_seed": round_seed(a.seed, idx), "threads": plan.threads, "mode": plan.mode, "replay": format!("tv C38 --tier {} --seed {} worker {} 0 fat only", a.tier, a.seed, idx),
+                                "why": format!("the round did not finish within {} s, and again not within {} s when re-run alone (a round normally takes 1-3 s)", stall, alone)}),
+                        );
+                        // the many-page rounds keep deadlocking: spend the rest of the budget on the other modes
+                        if plan.fat {
+                            nofat = true;
+                        }
+                    }
+                    (Outcome::Died(s2, _), _) => {
+                        ctx.violation("no_crash", "C38/process_death", json!({"round": idx, "status": s2, "first_status": died, "threads": plan.threads, "mode": plan.mode}));
+                    }
+                    (Outcome::Finished, Some(s)) => {
+                        ctx.count("worker_deaths_not_reproduced", 1);
+                        ctx.extra.insert("last_unreproduced_death".into(), json!({"round": idx, "status": s}));
+                    }
+                    (Outcome::Finished, None) => {
+                        ctx.count("stalls_not_reproduced", 1);
+                        ctx.extra.insert("last_unreproduced_stall".into(), json!({"round": idx, "threads": plan.threads, "mode": plan.mode}));
+                    }
+                }
+                if let (Outcome::Finished, Some(v)) = (&again, &second) {
+                    if v.get("setup_error").is_none() {
+                        handle_round(&mut ctx, a, v, nofat, &mut fps, &mut sig_examples, &mut plans_seen);
+                    }
+                }
+                start_idx = idx + 1;
+            }
+        }
+    }
+    cleanup_worker_scratch("c38w");
+    ctx.count("distinct_hook_event_orders", fps.len() as u64);
+    ctx.extra.insert("first_example_per_signature".into(), json!(sig_examples));
+    ctx.extra.insert("judge_query_plans".into(), json!(plans_seen));
+    ctx.assumptions.push("only rows whose COMMIT (or autocommit INSERT) returned Ok before the crash image was taken are required; rows of failed statements are ignored; the crash image is the process-kill image between statements (files as the kernel has them), so the mmap'ed table files already hold every write and only log replay can take rows away; Database::open twice on one directory is not exercised (no lock file, no shared state between the two instances: unsupported)".into());
+    ctx.finish()
+}
+
+fn handle_round(ctx: &mut Ctx, a: &Args, v: &J, nofat: bool, fps: &mut BTreeSet<u64>, sig_examples: &mut BTreeMap<String, J>, plans_seen: &mut BTreeMap<String, String>) {
+    let threads = v["threads"].as_u64().unwrap_or(0);
+    let mode = v["mode"].as_str().unwrap_or("?").to_string();
+    ctx.eval();
+    ctx.count("rounds", 1);
+    ctx.count(&format!("rounds_mode_{}", mode), 1);
+    ctx.count(&format!("rounds_threads_{}", threads), 1);
+    ctx.count("commits", v["commits"].as_u64().unwrap_or(0));
+    ctx.count("committed_rows", v["committed_rows"].as_u64().unwrap_or(0));
+    ctx.count("hook_events", v["hook_events"].as_u64().unwrap_or(0));
+    ctx.count("held_committers_overtaken_by_a_complete_commit", v["held_and_overtaken"].as_u64().unwrap_or(0));
+    let overl = v["commit_window_overlaps"].as_u64().unwrap_or(0);
+    if overl > 0 {
+        ctx.count("rounds_with_two_threads_in_commit_window", 1);
+        ctx.nontrivial(v["fp"].as_u64().unwrap_or(0));
+    }
+    fps.insert(v["fp"].as_u64().unwrap_or(0));
+    let base = json!({"round": v["case"], "round_seed": v["seed"], "threads": threads, "mode": mode, "replay": format!("tv C38 --tier {} --seed {} worker {} 0 {} only", a.tier, a.seed, v["case"], if nofat { "nofat" } else { "fat" })});
+    let mut report = |ctx: &mut Ctx, assertion: &str, sig: String, mut detail: J| {
+        if let Some(o) = detail.as_object_mut() {
+            o.insert("round".into(), base.clone());
+        }
+        sig_examples.entry(sig.clone()).or_insert_with(|| detail.clone());
+        ctx.violation(assertion, &sig, detail);
+    };
+    if let Some(f) = v["failed"].as_array() {
+        ctx.count("failed_transactions", f.len() as u64);
+        for x in f {
+            let e = x["error"].as_str().unwrap_or("");
+            if e.contains("PANIC: ") {
+                let site = crate::report::panic_site(e);
+                report(ctx, "no_panic", format!("C38/panic/{}", site.rsplit('/').next().unwrap_or("")), json!({"error": e}));
+            } else {
+                let class: String = e.split(|c: char| !c.is_ascii_alphabetic()).filter(|w| !w.is_empty()).take(6).collect::<Vec<_>>().join("_").to_lowercase();
+                ctx.count(&format!("failed_txn:{}", class), 1);
+            }
+        }
+    }
+    // coverage at commit return
+    if let Some(c) = v["coverage"].as_array() {
+        let mut per: BTreeMap<String, Vec<&J>> = BTreeMap::new();
+        for x in c {
+            let kind = x["kind"].as_str().unwrap_or("?");
+            let cause = if kind == "index" {
+                "never_logged"
+            } else if x["another_commit_in_flight"].as_bool().unwrap_or(false) {
+                // the shared dirty-page set was drained by a concurrent committer that has captured the page
+                // image (with this transaction's rows) but not written it yet
+                "image_held_by_concurrent_committer"
+            } else {
+                "ack_before_write"
+            };
+            per.entry(format!("{}.{}", kind, cause)).or_default().push(x);
+        }
+        for (k, xs) in per {
+            ctx.count(&format!("uncovered_at_commit_return:{}", k), xs.len() as u64);
+            report(ctx, "commit_covered_by_log", format!("C38/commit_covered_by_log/{}/t{}", k, threads), json!({"rows": xs.len(), "examples": xs.iter().take(3).collect::<Vec<_>>(), "why": "COMMIT (autocommit INSERT) returned Ok but no frame in the log files carries the row's page image"}));
+        }
+    }
+    // judge the crash images
+    let snaps = v["snapshots"].as_array().cloned().unwrap_or_default();
+    for snap in &snaps {
+        let (Some(dir), Some(man)) = (snap["dir"].as_str(), snap["manifest"].as_str()) else { continue };
+        let at = snap["at"].as_str().unwrap_or("?");
+        let j = judge(a, dir, man);
+        let _ = std::fs::remove_dir_all(dir);
+        let _ = std::fs::remove_file(man);
+        ctx.count("crash_images_judged", 1);
+        ctx.count(&format!("crash_images_{}", at), 1);
+        ctx.count("wal_frames_read", j["frames"].as_u64().unwrap_or(0));
+        ctx.count("wal_pages_with_several_frames", j["pages_with_several_frames"].as_u64().unwrap_or(0));
+        ctx.count("wal_pages_last_frame_differs_from_live_page", j["pages_whose_last_frame_differs_from_live"].as_u64().unwrap_or(0));
+        ctx.count("wal_frames_for_unknown_files", j["frames_for_unknown_files"].as_u64().unwrap_or(0));
+        ctx.count("wal_index_like_frames", j["index_like_frames"].as_u64().unwrap_or(0));
+        if let Some(p) = j["plans"].as_object() {
+            for (k, v) in p {
+                plans_seen.entry(k.clone()).or_insert_with(|| v.as_str().unwrap_or("").to_string());
+            }
+        }
+        if ctx.samples.len() < 4 {
+            ctx.sample(json!({"round": base, "crash_image": at, "commits": v["commits"], "committed_rows_at_image": snap["committed_rows"], "frames": j["frames"], "pages_in_wal": j["pages_in_wal"], "commit_window_overlaps": overl, "regressions": j["regressions"].as_array().map(|a| a.len()), "missing": j["missing"].as_object().map(|m| m.iter().map(|(k, v)| (k.clone(), v.as_array().map(|a| a.len()).unwrap_or(0))).collect::<BTreeMap<_, _>>())}));
+        }
+        if j.get("hang").is_some() {
+            report(ctx, "recovery_terminates", format!("C38/recovery_hang/t{}", threads), json!({"why": "opening the crash image did not finish within 90 s", "crash_image": at}));
+            continue;
+        }
+        if let Some(s) = j.get("abort") {
+            report(ctx, "recovery_no_crash", format!("C38/recovery_abort/t{}", threads), json!({"status": s, "crash_image": at}));
+            continue;
+        }
+        if let Some(e) = j.get("harness_error") {
+            ctx.count("judge_harness_errors", 1);
+            ctx.extra.insert("last_judge_harness_error".into(), e.clone());
+            continue;
+        }
+        if let Some(r) = j["regressions"].as_array() {
+            let mut per: BTreeMap<String, Vec<&J>> = BTreeMap::new();
+            for x in r {
+                let kind = x["kind"].as_str().unwrap_or("?");
+                let cause = if x["lost_present_in_an_earlier_frame"].as_u64().unwrap_or(0) > 0 { "earlier_frame_newer" } else { "latest_version_never_logged" };
+                per.entry(format!("{}.{}", kind, cause)).or_default().push(x);
+            }
+            for (k, xs) in per {
+                ctx.count(&format!("regressed_pages:{}", k), xs.len() as u64);
+                report(ctx, "no_page_regression", format!("C38/no_page_regression/{}/t{}", k, threads), json!({"pages": xs.len(), "crash_image": at, "examples": xs.iter().take(3).collect::<Vec<_>>(), "why": "the last log frame of the page lacks committed rows that the page holds; replay installs the older image"}));
+            }
+        }
+        if let Some(e) = j.get("open_error").or(j.get("open_panic")) {
+            let class: String = e.as_str().unwrap_or("").split(|c: char| !c.is_ascii_alphabetic()).filter(|w| !w.is_empty()).take(6).collect::<Vec<_>>().join("_").to_lowercase();
+            report(ctx, "every_committed_row_present", format!("C38/every_committed_row_present/open_failed:{}/t{}", class, threads), json!({"error": e, "crash_image": at}));
+            continue;
+        }
+        if let Some(m) = j["missing"].as_object() {
+            for (path, xs) in m {
+                let n = xs.as_array().map(|a| a.len()).unwrap_or(0);
+                if n == 0 {
+                    continue;
+                }
+                ctx.count(&format!("committed_rows_missing_after_recovery:{}", path), n as u64);
+                report(ctx, "every_committed_row_present", format!("C38/every_committed_row_present/{}/t{}", path, threads), json!({"missing_rows": n, "crash_image": at, "examples": xs.as_array().map(|a| a.iter().take(5).cloned().collect::<Vec<_>>()), "query_errors": j["query_errors"], "regressions_in_this_image": j["regressions"]}));
+            }
+        }
+        if let Some(m) = j["missing_before_replay"].as_object() {
+            for (path, xs) in m {
+                let n = xs.as_array().map(|a| a.len()).unwrap_or(0);
+                if n == 0 {
+                    continue;
+                }
+                ctx.count(&format!("committed_rows_unreachable_before_replay:{}", path), n as u64);
+                report(ctx, "committed_row_present_before_replay", format!("C38/committed_row_present_before_replay/{}/t{}", path, threads), json!({"rows": n, "crash_image": at, "examples": xs.as_array().map(|a| a.iter().take(5).cloned().collect::<Vec<_>>()), "query_errors": j["query_errors_before_replay"],
+                    "why": "a row whose COMMIT returned Ok cannot be found in the table files as they are (log ignored): lost by the concurrent statements themselves, not by log order"}));
+            }
+        }
+        if let Some(e) = j["query_errors"].as_object() {
+            if !e.is_empty() {
+                ctx.count("judge_query_errors", e.len() as u64);
+            }
+        }
+    }
 }
